@@ -5,9 +5,12 @@
 (* for the faithful transcription (Bug = "none") and must be reported      *)
 (* violated for every seeded transcription error (C10_Neg_<bug>.cfg).      *)
 (* (The two named deviations of the real code are not in the set.)         *)
+(* Every expression is taken in each of its sharing variants (which        *)
+(* repeated subtrees are one object): the faithful transcription does not  *)
+(* look at object identity, the seeded "product_identity" does.            *)
 (***************************************************************************)
 EXTENDS C10_Diff
-VARIABLE tree
+VARIABLES tree, share
 
 x == V("x")  y == V("y")
 Fn(nm, u) == MCall(nm, << u >>)
@@ -17,12 +20,13 @@ Trees == {
   Fn("sin", x), Fn("cos", N("Product", << KI(2), x >>)), Fn("tan", x), Fn("tanh", x), Fn("log", x),
   Fn("fabs", x), MCall("copysign", << KI(1), x >>), IfE(Cmp(x, "<", KI(0)), N("Product", << KI(-1), x >>), x),
   CSE0(Fn("exp", N("Product", << x, x >>))), N("Product", << x, y, x >>),
+  N("Product", << N("Sum", << x, y >>), N("Sum", << x, y >>) >>),
   N("Sum", << x, Fn("sinh", x), Fn("f", x) >>), Call(V("f"), << x >>) }
 
-Init == tree \in Trees
-Next == UNCHANGED tree
+Init == tree \in Trees /\ share \in ShareVariants(tree, x, TRUE)
+Next == UNCHANGED << tree, share >>
 Refines ==
     \A k \in 1..Len(NSs) :
-        LET pred == Predicted(tree, x, NSs[k]) IN
+        LET pred == PredictedX(tree, x, Cx(NSs[k], share, NoCache)) IN
         JudgeOut(tree, x, NSs[k], pred).v \in {"OK", "SKIP"}
 =============================================================================
